@@ -75,6 +75,9 @@ class CoreScenario(Scenario):
         for bid, sig in b.branch_run.items():
             o[f"{bid}.run"] = sig
         self.shape_counters()
+        if any(c.startswith("d:") for st in self.structs.values() for c in
+               ([a[0] for a in st.get("arms", [])] + ([st["test"]] if "test" in st else []))):
+            self.hit("design_with_data_dependent_conditions")
         # every body of the program must have been built (a harness bug otherwise)
         for bid, body in self.a.bodies.items():
             if body.branch_of is None and bid not in b.trans and bid not in b.methods:
@@ -418,6 +421,14 @@ class CoreScenario(Scenario):
                     raise Violation("alias-data-mismatch", f"{al}.{f}={obs[f'{al}.{f}']} but {tgt}.{f}={obs[f'{tgt}.{f}']}", method=al)
 
     # C06 ----------------------------------------------------------------------------------------
+    def cval(self, ref, stim, obs):
+        """value of a condition / switch test: a free input, or bits of a method's observed data_in"""
+        if ref.startswith("d:"):
+            _, mid, bit = ref.split(":")
+            x = obs.get(f"{mid}.din", 0)
+            return (x & 3) if bit == "s" else ((x >> int(bit)) & 1)
+        return stim.get(ref, 0)
+
     def cond_at(self, pos, stim, obs, with_run):
         for (u, alt) in pos:
             if u[0] == "B":
@@ -426,14 +437,14 @@ class CoreScenario(Scenario):
                 continue
             n = self.structs[u]
             if u[0] == "if":
-                arms = [stim.get(c, 0) for c, _ in n["arms"]]
+                arms = [self.cval(c, stim, obs) for c, _ in n["arms"]]
                 if alt < len(arms):
                     if not arms[alt] or any(arms[:alt]):
                         return False
                 elif any(arms):
                     return False
             elif u[0] == "sw":
-                test = stim.get(n["test"], 0)
+                test = self.cval(n["test"], stim, obs)
                 vals = [v for v, _ in n["cases"]]
                 if alt < len(vals):
                     if test != vals[alt]:
